@@ -206,7 +206,7 @@ pub fn check_forward(rec: &Rec, garbage: &[u8], ctx: &mut Ctx) -> Result<(), Fai
         let mut data = plain.clone();
         data.extend(garbage);
         data.extend([0x77u8; 4]);
-        let mut rd = FaultReader::plain(data);
+        let mut rd = chunked_reader(data);
         match catch(|| read(&k, &mut rd)) {
             Err(p) => return cx.fail(ctx, "read", "panic", p),
             Ok(Some(Ok(dv))) => {
@@ -222,7 +222,7 @@ pub fn check_forward(rec: &Rec, garbage: &[u8], ctx: &mut Ctx) -> Result<(), Fai
     if has_read_limited(&k) {
         let mut data = plain.clone();
         data.extend([0x77u8; 4]);
-        let mut rd = FaultReader::plain(data);
+        let mut rd = chunked_reader(data);
         let res = {
             let mut lr = LimitedReader::new(&mut rd, e.len(), LenSource::Slice, 0, Layer::Ipv6ExtHeader);
             catch(|| read_limited(&k, &mut lr))
